@@ -221,7 +221,8 @@ TEMPLATES = {
     "drop_after_write": (["INSERT INTO zqt1 SELECT ca FROM ta", "DROP TABLE zqt2"], "ansi", None, None),
 }
 
-ACCESSORS = ["source_tables", "target_tables", "intermediate_tables", "get_column_lineage", "to_cytoscape", "to_cytoscape_column", "str"]
+ACCESSORS = ["source_tables", "target_tables", "intermediate_tables", "get_column_lineage", "to_cytoscape", "to_cytoscape_column", "str",
+             "statements"]
 
 
 def call(lr, name):
@@ -233,13 +234,15 @@ def call(lr, name):
         return [tuple(sorted((k, str(v)) for k, v in x["data"].items())) for x in lr.to_cytoscape()]
     if name == "to_cytoscape_column":
         return [tuple(sorted((k, str(v)) for k, v in x["data"].items() if k != "parent_candidates")) for x in lr.to_cytoscape("column")]
+    if name == "statements":
+        return len(lr.statements())
     return str(lr)
 
 
 class AccessorOb(TemplateObligation):
-    def __init__(self, name, stmts):
-        self.name, self.stmts, self.dialect = name, list(stmts), "ansi"
-        self.key = "accessors/" + name
+    def __init__(self, name, stmts, dialect="ansi", tsql=False):
+        self.name, self.stmts, self.dialect, self.tsql = name, list(stmts), dialect, tsql
+        self.key = "accessors/" + name + ("/tsql-no-semicolon" if tsql else "")
 
     def prepare(self):
         self.script = LiftedScript(self.stmts, self.dialect)
@@ -252,17 +255,28 @@ class AccessorOb(TemplateObligation):
                 names.set(sl, "fx%d" % i)
         a = ACCESSORS[fork_choice("acc_a", len(ACCESSORS))]
         b = ACCESSORS[fork_choice("acc_b", len(ACCESSORS))]
-        lr = self.script.runner(names)
-        r1 = call(lr, a)
-        call(lr, b)
-        r3 = call(lr, a)
-        fresh = call(self.script2.runner(names), a)
+        def go():
+            lr = self.script.runner(names, tsql=self.tsql)
+            r1 = call(lr, a)
+            call(lr, b)
+            r3 = call(lr, a)
+            fresh_lr = self.script2.runner(names, tsql=self.tsql)
+            call(fresh_lr, b)                       # a fresh runner asked the OTHER accessor first
+            return r1, r3, call(fresh_lr, a)
+        if self.tsql:
+            from sqllineage.config import SQLLineageConfig
+
+            with SQLLineageConfig(TSQL_NO_SEMICOLON=True):
+                r1, r3, fresh = go()
+        else:
+            r1, r3, fresh = go()
         ok = seq_eq(r1, r3) and seq_eq(r1, fresh)
         return Verdict(ok, {"names": names, "first": a, "second": b})
 
     def concretise(self, verdict, model):
         n = verdict.data["names"].concretise(model)
-        return {"names": n, "sql": self.script.render(n), "first": verdict.data["first"], "second": verdict.data["second"]}
+        return {"names": n, "sql": self.script.render(n, sep="\n" if self.tsql else ";\n"), "first": verdict.data["first"],
+                "second": verdict.data["second"], "dialect": self.dialect, "tsql": self.tsql}
 
     def replay(self, conc, verdict_ok):
         from lx import replay as R
@@ -273,9 +287,13 @@ class AccessorOb(TemplateObligation):
                 "    if name == 'get_column_lineage': return [[str(x) for x in p] for p in lr.get_column_lineage()]\n"
                 "    if name == 'to_cytoscape': return lr.to_cytoscape()\n"
                 "    if name == 'to_cytoscape_column': return lr.to_cytoscape('column')\n"
+                "    if name == 'statements': return len(lr.statements())\n"
                 "    return str(lr)\n"
-                "lr = LineageRunner(c['sql']); r1 = call(lr, c['first']); call(lr, c['second']); r3 = call(lr, c['first'])\n"
-                "fresh = call(LineageRunner(c['sql']), c['first'])\nresult = {'ok': r1 == r3 == fresh}\n") % (conc,)
+                "from sqllineage.config import SQLLineageConfig\nimport contextlib\n"
+                "with (SQLLineageConfig(TSQL_NO_SEMICOLON=True) if c['tsql'] else contextlib.nullcontext()):\n"
+                "    lr = LineageRunner(c['sql'], dialect=c['dialect']); r1 = call(lr, c['first']); call(lr, c['second']); r3 = call(lr, c['first'])\n"
+                "    fr = LineageRunner(c['sql'], dialect=c['dialect']); call(fr, c['second']); fresh = call(fr, c['first'])\n"
+                "result = {'ok': r1 == r3 == fresh}\n") % (conc,)
         r = R.run_code(code)
         if not r.get("ok"):
             return {"real_ok": False, "lifted_matches": False, "detail": r}
@@ -303,4 +321,5 @@ def obligations(tier, seed):
             obs.append(ob)
     for name in ("qualified_join", "unqualified_join", "chain2", "cte"):
         obs.append(AccessorOb(name, TEMPLATES[name][0]))
+    obs.append(AccessorOb("two_inserts", ["INSERT INTO zqt1 SELECT ca FROM zqt2", "INSERT INTO zqt3 SELECT cb FROM zqt4"], "tsql", tsql=True))
     return obs
